@@ -7,6 +7,12 @@ TB = ('Coq 8.16.1 kernel (coqc, full .vo builds, vm_compute; no native_compute);
       'the correspondence harness (g++ 12 -O1, ASan+UBSan+float-cast-overflow, exact-size heap buffers) and its generators; the hand-written model is tied to /repo/src by that correspondence, '
       'which is differential testing. ')
 CLAIMED = {
+ 'C14': dict(text='Theorems for every history of create/attach/detach/destroy over two bus objects: the pointer-list model of AttachMsgHandler/DetachMsgHandler keeps both lists sorted, duplicate-free and consistent with each '
+                  'handler\'s bus; RunMessageHandlers calls the callback once and exactly the attached handlers with PGN 0 or the message PGN, each once (refinement to a finite-map machine, plus the call order); destroyed or '
+                  'detached handlers are never called; re-attaching moves.  Model, abstract machine and C++ compared on exhaustive bounded histories and random long ones.',
+             note=TB + 'The clause about messages the library consumes itself / TP frames not being passed on is carried by the node model (rx_loop delivers every ready slot; TP.CM/TP.DT never yield one), see C07/C10.  '
+                  'Not covered: a handler detaching or deleting itself inside HandleMsg (outside the property\'s quantifier; observed to skip later handlers).',
+             design='6 C14', technique='Coq refinement proof (pointer list -> finite map) + extracted-model/implementation correspondence'),
  'C16': dict(text='Theorems about a Gallina model of the text primitives of N2kMsg.cpp: AddAISStr/AddVarStr never write beyond the 223-byte payload or read beyond the terminator for any string and any maximum, AddStr when the '
                   'maximum fits; the variable string field is well formed (length/type bytes consistent, every counted byte written); the sized readers never write beyond the destination and always terminate it; round trips for '
                   'fixed, AIS (independent alphabet mapping) and variable ASCII/BMP text (astral characters replaced).  Model tied to the C++ by correspondence with exact-size heap strings and canaried destinations.',
